@@ -5,7 +5,7 @@ wt=/tmp/ts/$id; mkdir -p /tmp/ts; rm -rf "$wt"
 git -C /repo worktree add -q --detach "$wt" HEAD || exit 2
 git -C "$wt" apply /verif/seeded/$id/patch.diff || { echo "$id: patch does not apply"; git -C /repo worktree remove --force "$wt"; exit 3; }
 for p in "$@"; do
-  out=$(cd /verif && VERIF_REPO="$wt" ./check $p 2>&1 | tail -4 | tr '\n' ' ')
+  out=$(cd /verif && VERIF_OUT=/tmp/ts/out-$id VERIF_REPO="$wt" ./check $p 2>&1 | tail -4 | tr '\n' ' ')
   echo "$id $p: $out"
 done
 git -C /repo worktree remove --force "$wt"
